@@ -44,6 +44,8 @@ PLACEMENTS = [
 ]
 LINES = ["x = 1", "    y", "", "# c", "ls -l | grep $X", "if a:", "        z", "s = '''t", "u'''", "(", ")", "  w  ", "a, b", "\tq", "f = f'''t {a}",
          "mid {b} x",
+         # a physical line that holds only a backslash (joined with the next one); a statement continued by one
+         "\\", "v = 1 + \\",
          # a leading '<' / '<<' puts the line two / four columns left of the block's indentation (dedented comments)
          "<# d", "<<# e",
          # characters str.splitlines() takes for line ends, inside a multi-line string of the block
@@ -101,6 +103,8 @@ def cases(unit: tuple) -> Iterator[dict]:
                 body = [first, *rest]
                 for after in AFTER:
                     yield {"kind": "with", "body": body, "after": after, "indent": 0}
+                if m <= 2:  # the same block in a CRLF source
+                    yield {"kind": "with", "body": body, "after": "y = 2\n", "indent": 0, "crlf": True}
                 if m <= 1:  # blanks / a comment between the colon of the header and the end of its line
                     for tail in (" ", "\t ", "  # note", "# n", " #"):
                         yield {"kind": "with", "body": body, "after": "y = 2\n", "indent": 0, "tail": tail}
@@ -274,7 +278,8 @@ def _place(ind: str, ln: str, unit: str = "    ") -> str:
 
 
 def _is_code(ln: str) -> bool:
-    return bool(ln.strip()) and not ln.lstrip("<").strip().startswith("#")
+    # (a line that holds only a backslash is joined with the next one: no code of its own)
+    return bool(ln.strip()) and not ln.lstrip("<").strip().startswith("#") and ln.strip() != "\\"
 
 
 def _consistent_indent(body: list[str]) -> bool:
@@ -323,6 +328,9 @@ def _check_with(case: dict, acc: Any) -> None:
         if any("\n" in ln for ln in body) and sum(ln.count("'''") for ln in body if "\n" not in ln):
             acc.count("outside:multi-line-entry-inside-another-string")  # the entry's own lines would become code
             return
+        if any(ln.endswith("\\") and (i + 1 == len(body) or not _is_code(body[i + 1]) or body[i + 1].startswith("<")) for i, ln in enumerate(body)):
+            acc.count("outside:continuation-without-a-line-to-continue")  # it would reach out of the block
+            return
         if not _consistent_indent(body):
             acc.count("outside:inconsistent-dedent")  # the block does not tokenize (IndentationError): outside the domain
             return
@@ -333,6 +341,12 @@ def _check_with(case: dict, acc: Any) -> None:
         want = textwrap.dedent(block)
         after = "".join(" " * case["indent"] + ln + "\n" for ln in case["after"].splitlines()) if case["after"] else ""
         after = textwrap.dedent(after) if case["indent"] == 0 else None
+        if case.get("crlf"):
+            if "\r" in src or "\\\n" in block and False:
+                acc.count("outside:already-has-cr")
+                return
+            src, want = src.replace("\n", "\r\n"), want.replace("\n", "\r\n")
+            after = after.replace("\n", "\r\n") if after else after
     acc.nontrivial(src)
     st, tree = run.ours(src, "exec")
     acc.ran()
